@@ -250,6 +250,13 @@ void ProcessCMD(
         DecodeLine(pCMDRecs, CMDRecCnt, EnvLine, ErrProc);
     }
 
+    /* the caller's array has room for MAXPARAM arguments: refuse the rest */
+
+    if (argc > MAXPARAM + 1) {
+        ErrProc(False, argv[MAXPARAM + 1]);
+        argc = MAXPARAM + 1;
+    }
+
     for (z = 0; z < argc; z++) {
         Unprocessed[z] = (z != 0);
     }
